@@ -225,6 +225,7 @@ func (e *Engine) verifyFunc(fn *ssa.Function, classes map[string]bool) (vc *VC) 
 		f.hasAssigns = f.spec.HasAssigns
 		f.owns = f.spec.Owns
 		f.assignTargets = env.assignTargets(f.spec, st)
+		vc.pureFrame = f.hasAssigns && len(f.assignTargets) == 0
 		for _, h := range f.spec.Holds {
 			st.ghost["lock:"+h] = IntT(2)
 		}
